@@ -8,6 +8,16 @@ VERIF = os.path.dirname(os.path.dirname(os.path.abspath(__file__)))
 BASELINE_OFF = "/verif/tool/baseline.sh"
 
 CLAIMED = {
+    "C03": dict(
+        technique="static analysis: copy-on-write / ownership rules - API inventory of ptr_member/map_member, intraprocedural alias-use classification of every handle obtained from shared storage, write-through detection on shared_ptr members with clone-then-modify dominance, who-may-write tables (clang AST of all 364 library units)",
+        text="Decides the structural necessary condition of causality: nothing writes through storage shared between ScheduleState snapshots. ptr_member can only hand out const references; each of the ~110 call sites of a map_member accessor that can yield a mutable handle (and every iteration over a map_member) is classified (copied / const / mutable escape) and mutable escapes are confined to an allow-list with reasons; member functions of the 4 classes with shared_ptr members never write through them unless the member was re-pointed to a fresh copy earlier on every path; callers of the two in-place connection mutators clone first; snapshots[arithmetic index] is only read; writes to Schedule members other than snapshots come from an enumerated table; no hidden static state; the next report step is a copy with every per-step member reset. Not decided: splitting of the input into blocks, equality of states under truncation of the input.",
+        note="Trusted: verif/cow.py (intraprocedural; calls judged by the callee's parameter types), tables/c03_*.json (allow-lists with one reason per entry). A handle passed to a function taking a non-const reference is treated as a write.",
+        design="DESIGN.md §4 C03"),
+    "C04": dict(
+        technique="static analysis: structural order/shape rules on Schedule::applyAction and iterateScheduleSection, who-may-read rule on the action-mode parameters of HandlerContext, plus the C03 copy-on-write rules",
+        text="Decides the protocol of applyAction (unconditional truncate to n+1, append every keyword to block n and handle it with actionx_mode=true, apply global WPIMULT, close the step, re-iterate blocks n+1..end with keepKeywords=true; argument expressions checked), that only the documented keywords (WELPI, UDQ '?') read the action-mode parameters so every other handler is mode-independent, that the only direct state write is the ACTIONX_WELL_EVENT marker, and - via the C03 rules - that keyword handling never writes through storage shared with earlier report steps. Not decided: state-by-state equality with the inlined schedule.",
+        note="Trusted: as C03; MODE_READERS table in rules/C04.py.",
+        design="DESIGN.md §4 C04"),
     "C17": dict(
         technique="static analysis: call-graph stratification of the recursive-descent UDQ parser, token-guard and associativity shape rules, and agreement of the name->token, name->implementation and implementation tables (clang AST)",
         text="Decides operator precedence and associativity as encoded in the parser's structure (each parse level calls only the next-tighter level or itself; parentheses restart at the loosest level; each level consumes exactly its own operator tokens; + - * / left-nested, ^ and comparisons right-recursive), consistency of the token classes, that every documented function/operator name is tokenised, registered with the right class and bound to the implementation of that name, that each implementation applies the operator or library function its name says, and operator pairing in UDQScalar/UDQSet arithmetic. Not decided: set arithmetic on concrete values with undefined elements, ASSIGN/DEFINE/UPDATE ordering over report steps.",
